@@ -1,10 +1,77 @@
 (* C01 — Parsing is total and lossless for every source text.
-   Property theorems only; every proof is [exact <lemma>]. *)
-From verif Require Import lib.Base lib.Utf8 model.C01_Parse model.C01 proofs.C01_proofs.
+   Property theorems only; every proof is [exact <lemma>] (or a one-line
+   combination of lemmas). The model is model/C01_Parse.v. *)
+From verif Require Import lib.Base lib.Utf8 model.C01_Parse model.C01
+  proofs.C01_proofs proofs.C01_Utf8_proofs proofs.C01_Parse_proofs proofs.C01_sweep.
 
 (* The oracle evaluated on what parse.Parse returned is sound for the
-   specification of a lossless tree with errors inside the source. *)
+   specification of a lossless tree with all error ranges inside the source. *)
 Theorem C01_oracle_sound : forall src t errs,
   check_C01 src t errs = true -> Spec_C01 src t errs.
 Proof. exact check_C01_sound. Qed.
 Print Assumptions C01_oracle_sound.
+
+(* UTF-8 forward/backward width: for every byte string, at every position
+   reached by decoding forward from 0, decoding the last rune of the text up
+   to the end of the rune decoded forward gives the same width. *)
+Theorem C01_next_backup_id : forall src p, boundary src p -> p < length src ->
+  snd (decode_last_rune (firstn (p + snd (decode_rune (skipn p src))) src))
+  = snd (decode_rune (skipn p src)).
+Proof. exact next_backup. Qed.
+Print Assumptions C01_next_backup_id.
+
+(* ... hence parser.backup undoes parser.next in every state the parser can
+   be in (position on a rune boundary; overEOF > 0 only at the end). *)
+Theorem C01_backup_undoes_next : forall src ps,
+  pos ps <= length src -> boundary src (pos ps) -> (0 < overEOF ps -> pos ps = length src) ->
+  backup src (snd (next src ps)) = ps.
+Proof. exact next_backup_state. Qed.
+Print Assumptions C01_backup_undoes_next.
+
+(* Losslessness, all source texts (incl. invalid UTF-8), all Unicode tables,
+   every fuel that suffices: the tree returned by the model starts at 0, every
+   node lies inside the source, children tile their parent in order, the leaves
+   concatenate to the source up to the root's end, text after the root is
+   reported by an error there, every error range is inside the source, and each
+   node's text is the slice of its range -- except that a Redir node with a
+   left operand has the text of the range after that operand ([relax = true]). *)
+Theorem C01_parse_tiled : forall is_print src fuel t es,
+  parse_fuel is_print src fuel = Some (t, es) -> Spec_C01_gen true src t es.
+Proof. exact parse_spec_relaxed. Qed.
+Print Assumptions C01_parse_tiled.
+
+(* The full property (text = slice everywhere) for every parse whose tree has
+   no Redir node with a left operand. *)
+Theorem C01_parse_lossless_partial : forall is_print src fuel t es,
+  parse_fuel is_print src fuel = Some (t, es) -> no_redir_left t = true -> Spec_C01 src t es.
+Proof. exact parse_spec_strict. Qed.
+Print Assumptions C01_parse_lossless_partial.
+
+Theorem C01_parse_errors_in_range : forall is_print src fuel t es,
+  parse_fuel is_print src fuel = Some (t, es) -> errs_in_range src es.
+Proof. exact parse_errors_in_range. Qed.
+Print Assumptions C01_parse_errors_in_range.
+
+(* The full statement "every node's text is the slice of its range" is false
+   of the faithful model (and of the implementation): witness "a 2>b". *)
+Theorem C01_node_text_is_slice_refuted :
+  exists src t es, parse_model pr0 src = Some (t, es) /\ ~ Spec_C01 src t es.
+Proof. exact node_text_is_slice_refuted. Qed.
+Print Assumptions C01_node_text_is_slice_refuted.
+
+(* Totality with the fuel bound FUELK*(len+1), bounded version: for every text
+   of length <= 3 over 25 metacharacters and of length <= 4 over 16 bytes
+   (incl. a two-byte rune and its halves) the model returns within its fuel. *)
+Theorem C01_parse_total_partial : forall s, in_sweep s ->
+  exists t es, parse_model pr0 s = Some (t, es) /\ check_C01_gen true s t es = true.
+Proof. exact sweep_total. Qed.
+Print Assumptions C01_parse_total_partial.
+
+(* non-vacuity: the model parses a pipeline with a lambda without errors into
+   a tree accepted by the oracle *)
+Example C01_example :
+  match parse_model pr0 (hx "61207c2065616368207b7c787c2070757420247820277927207d") with
+  | Some (t, es) => check_C01 (hx "61207c2065616368207b7c787c2070757420247820277927207d") t es = true /\ es = []
+  | None => False
+  end.
+Proof. exact example_pipeline. Qed.
